@@ -372,6 +372,18 @@ func (cs *ContractSet) loadFile(path string, pkgPath string) error {
 				kind = "plet" // evaluated in the post-state of each return path
 			}
 			cur.Clauses = append(cur.Clauses, &Clause{Kind: kind, Var: strings.TrimSpace(rest[:i]), Expr: e, Src: rest, Line: ln})
+		case "invokes":
+			// invokes <func parameter> when <condition over results>: a trusted function that calls the
+			// function value it was given (once, with arbitrary arguments) when the condition holds
+			i := strings.Index(rest, " when ")
+			if i < 0 {
+				return fmt.Errorf("%s: bad invokes %q (invokes <param> when <cond>)", path, ln)
+			}
+			e, err := parseExpr(strings.TrimSpace(rest[i+6:]))
+			if err != nil {
+				return fmt.Errorf("%s: %s: %v", path, cur.Key, err)
+			}
+			cur.Clauses = append(cur.Clauses, &Clause{Kind: "invokes", Var: strings.TrimSpace(rest[:i]), Expr: e, Src: rest, Line: ln})
 		case "modifies":
 			cl := &Clause{Kind: "modifies", Src: rest, Line: ln}
 			for _, p := range splitTop(rest, ',') {
